@@ -12,6 +12,8 @@
 (*               disc  centre <<CX, CY>>, radius RAD (doubled), squared distances   *)
 (*               poly  <<<<X, Y>>, ...>>   simple polygon, either orientation       *)
 (*               group / lanelets   sequence of rects (union)                      *)
+(*               mgroup  ShapeGroup MIXING rects, discs, polygons and nested       *)
+(*                       mgroups: ms = sequence of region descriptors (union)     *)
 (*   orientation grid k*pi/12, full turn = 24.  A goal interval is GIVEN as [a, b]  *)
 (*               with a in -24..24, 0 <= b - a <= 23 (any length below 2pi).        *)
 (*   velocity    integers, interval [lo, hi]                                       *)
@@ -41,6 +43,7 @@ Rect(r)       == [k |-> "rect", r |-> r]
 Disc(c, rad)  == [k |-> "disc", c |-> c, rad |-> rad]
 Poly(v)       == [k |-> "poly", v |-> v]
 Group(rs)     == [k |-> "group", rs |-> rs]                        \* ShapeGroup of rectangles
+MGroup(ms)    == [k |-> "mgroup", ms |-> ms]                       \* ShapeGroup of arbitrary member shapes (may nest)
 Lanelets(rs)  == [k |-> "lanelets", rs |-> rs]                     \* lanelet goal: rs[i] = area of the i-th referenced lanelet
 GS(t, p, o, v) == [t |-> t, pos |-> p, ori |-> o, vel |-> v]       \* one goal state
 KS(t, p, th, thint, v, vint) == [kind |-> "ks", t |-> t, p |-> p, th |-> th, thint |-> thint, v |-> v, vint |-> vint]
@@ -63,10 +66,14 @@ Crosses(a, b, p) == /\ (a[2] > p[2]) # (b[2] > p[2])
                        IN IF d > 0 THEN lhs < rhs ELSE lhs > rhs
 InPoly(P, p) == \/ \E i \in 1..Len(P) : OnSeg(P[i], Nxt(P, i), p)                              \* boundary included
                 \/ Cardinality({i \in 1..Len(P) : Crosses(P[i], Nxt(P, i), p)}) % 2 = 1       \* crossing number
+RECURSIVE InRegion(_, _)
 InRegion(c, p) == CASE c.k = "rect" -> InRect(c.r, p)
                     [] c.k = "disc" -> InDisc(c.c, c.rad, p)       \* Circle.contains_point is exact on this data: no band
                     [] c.k = "poly" -> InPoly(c.v, p)
                     [] c.k \in {"group", "lanelets"} -> \E i \in 1..Len(c.rs) : InRect(c.rs[i], p)
+                    [] c.k = "mgroup" -> \E i \in 1..Len(c.ms) : InRegion(c.ms[i], p)      \* union; a disc counts by its FULL radius
+RECURSIVE Leaves(_)                                                                      \* the primitive members of a (nested) group
+Leaves(c) == IF c.k = "mgroup" THEN UNION {Leaves(c.ms[i]) : i \in 1..Len(c.ms)} ELSE {c}
 
 (* ------------------------------ angles on the pi/12 grid ----------------------- *)
 Turn == 24
@@ -97,12 +104,14 @@ Theta(s)        == IF s.kind = "pm" THEN Heading(s.vx, s.vy) ELSE s.th
 (* interior and exterior points must still be decided.  fz = FALSE: everything is exact (see module header).            *)
 InRectOpen(r, p) == r[1] < p[1] /\ p[1] < r[3] /\ r[2] < p[2] /\ p[2] < r[4]
 Dist2(c, p) == (p[1] - c[1]) * (p[1] - c[1]) + (p[2] - c[2]) * (p[2] - c[2])
+RECURSIVE RegionFz(_, _)
 RegionFz(c, p) == CASE c.k = "rect" -> IF InRectOpen(c.r, p) THEN "T" ELSE IF InRect(c.r, p) THEN "EITHER" ELSE "F"
                     [] c.k = "disc" -> IF Dist2(c.c, p) < c.rad * c.rad THEN "T" ELSE IF Dist2(c.c, p) = c.rad * c.rad THEN "EITHER" ELSE "F"
                     [] c.k = "poly" -> IF \E i \in 1..Len(c.v) : OnSeg(c.v[i], Nxt(c.v, i), p) THEN "EITHER" ELSE B3(InPoly(c.v, p))
                     [] c.k \in {"group", "lanelets"} ->
                          IF \E i \in 1..Len(c.rs) : InRectOpen(c.rs[i], p) THEN "T"
                          ELSE IF \E i \in 1..Len(c.rs) : InRect(c.rs[i], p) THEN "EITHER" ELSE "F"   \* also a shared edge: a gap may open
+                    [] c.k = "mgroup" -> Any3({RegionFz(c.ms[i], p) : i \in 1..Len(c.ms)})
 SatVel(c, s) == IF s.kind = "pm"
                 THEN B3((c.lo <= 0 \/ c.lo * c.lo <= Speed2(s)) /\ (c.hi >= 0 /\ Speed2(s) <= c.hi * c.hi))  \* lo <= hypot <= hi
                 ELSE B3(c.lo <= s.v /\ s.v <= c.hi)
@@ -139,10 +148,12 @@ RotQ(q, p)   == IF q % 4 = 0 THEN p ELSE RotQ((q % 4) - 1, <<-p[2], p[1]>>)
 Move(m, p)   == RotQ(m.q, <<p[1] + m.t[1], p[2] + m.t[2]>>)
 MoveRect(m, r) == LET a == Move(m, <<r[1], r[2]>>)  b == Move(m, <<r[3], r[4]>>)
                   IN <<Min(a[1], b[1]), Min(a[2], b[2]), Max(a[1], b[1]), Max(a[2], b[2])>>       \* stays axis-parallel
+RECURSIVE MoveRegion(_, _)
 MoveRegion(m, c) == CASE c.k = "none" -> c
                       [] c.k = "rect" -> Rect(MoveRect(m, c.r))
                       [] c.k = "disc" -> Disc(Move(m, c.c), c.rad)
                       [] c.k = "poly" -> Poly([i \in 1..Len(c.v) |-> Move(m, c.v[i])])
+                      [] c.k = "mgroup" -> MGroup([i \in 1..Len(c.ms) |-> MoveRegion(m, c.ms[i])])
                       [] c.k = "group" -> Group([i \in 1..Len(c.rs) |-> MoveRect(m, c.rs[i])])
                       [] c.k = "lanelets" -> Lanelets([i \in 1..Len(c.rs) |-> MoveRect(m, c.rs[i])])
 MoveAng(m, c)  == IF c.k = "none" \/ m.q % 4 = 0 THEN c ELSE Ang(c.a + 6 * (m.q % 4), c.b + 6 * (m.q % 4))
@@ -160,10 +171,12 @@ AdmMove(m) == m.q \in -3..3
 AdmIv(c)  == c.k = "none" \/ (c.k = "iv" /\ c.lo <= c.hi)
 AdmAng(c) == c.k = "none" \/ (c.k = "ang" /\ c.a \in -Turn..Turn /\ c.b - c.a \in 0..Turn - 1)
 AdmRect(r) == r[1] < r[3] /\ r[2] < r[4]
+RECURSIVE AdmPos(_)
 AdmPos(c) == CASE c.k = "none" -> TRUE
                [] c.k = "rect" -> AdmRect(c.r)
                [] c.k = "disc" -> c.rad > 0
                [] c.k = "poly" -> Len(c.v) >= 3
+               [] c.k = "mgroup" -> Len(c.ms) >= 1 /\ \A i \in 1..Len(c.ms) : c.ms[i].k \in {"rect", "disc", "poly", "mgroup"} /\ AdmPos(c.ms[i])
                [] c.k \in {"group", "lanelets"} -> Len(c.rs) >= 1 /\ \A i \in 1..Len(c.rs) : AdmRect(c.rs[i])
                [] OTHER -> FALSE
 AdmGS(g)  == g.t.k = "iv" /\ AdmIv(g.t) /\ AdmPos(g.pos) /\ AdmAng(g.ori) /\ AdmIv(g.vel)   \* time_step is mandatory in the library
@@ -183,6 +196,9 @@ LawRigid(goal, s, m) == LET x == Reached(goal, s)  y == MovedReached(goal, m, Mo
                         \/ (s.kind = "ks" /\ s.thint = 1 /\ Fz(m))                 \* the int 0 is not on the turned grid: excluded
                         \/ (s.kind = "pm" /\ s.vx = 0 /\ s.vy = 0 /\ Fz(m))        \* atan2(0, 0) = 0 does not turn either
                         \/ (Compat(x, y) /\ (~Fz(m) => x = y))
+(* a (nested) group is the union of its primitive members; a group of rectangles can be written either way *)
+LawFlatten(c, p)  == c.k = "mgroup" => (InRegion(c, p) <=> \E m \in Leaves(c) : InRegion(m, p))
+LawGroupKind(c, p) == c.k = "group" => (InRegion(c, p) <=> InRegion(MGroup([i \in 1..Len(c.rs) |-> Rect(c.rs[i])]), p))
 LawHeading == \A i \in 1..Len(Dirs) : \A m \in 1..2 :
                  LET v == Dirs[i].d IN Heading(m * v[1], m * v[2]) = Dirs[i].h /\ IsCompass(m * v[1], m * v[2])
 =================================================================================
